@@ -805,6 +805,10 @@ TRICKY = [b"done\n", b"END\n", b"ERR\n", b"chunked\n", b"e", b"0\n", b"\n",
           b"ff\n", b"\x00\x00\x00\x01", b"le", b"de", b"i0e"]
 
 
+HUGE = 1024 * 1024          # protocol._ProtocolThreeEncoder.BUFFER_SIZE
+HUGE_BODIES = False         # switched on by the C29 check only
+
+
 def _clean12(b):
     return b.replace(b"\x01", b"A").replace(b"\n", b"B")
 
@@ -829,7 +833,17 @@ def bytes_strategy(max_size, big=None):
         opts.append(st.tuples(st.integers(lo, hi), st.binary(
             min_size=1, max_size=16)).map(
                 lambda t: (t[1] * (t[0] // len(t[1]) + 1))[:t[0]]))
-    return st.one_of(opts).map(b2s)
+    normal = st.one_of(opts)
+    if big and HUGE_BODIES:
+        # one body in thirty is as large as the encoder's write buffer
+        # (1 MiB) give or take a few bytes: parts above that size take
+        # another path through _ProtocolThreeEncoder._write_func
+        huge = st.tuples(st.integers(HUGE - 3, HUGE + 3), st.binary(
+            min_size=1, max_size=16)).map(
+                lambda t: (t[1] * (t[0] // len(t[1]) + 1))[:t[0]])
+        return st.integers(0, 29).flatmap(
+            lambda i: huge if i == 0 else normal).map(b2s)
+    return normal.map(b2s)
 
 
 def arg_strategy(version, max_size=40):
